@@ -170,15 +170,37 @@ Inv_Pivots ==
            /\ NeedsRowExchange(A) =>
                  \E p \in (IF N = 3 THEN Perms3 ELSE {<<1, 2>>, <<2, 1>>}) :
                      ~ZeroPivot(PermRows(A, p))
-           \* real pivot = piv/prev * 2^(re + ce) against 2^-39
-           /\ Det(A) # 0 =>
-                 ~TinyAbsPivot(A, [i \in 1..N |-> -30], [i \in 1..N |-> 0])
-           /\ (N = 2 /\ A[1][1] # 0)
-                 => /\ TinyAbsPivot(A, <<-20, 7>>, <<-21, 0>>)
-                    /\ (TinyAbsPivot(A, <<-40, 0>>, <<0, 0>>)
-                           <=> Abs(A[1][1]) = 1)
-                    /\ TinyAbsPivot(A, <<-41, -41>>, <<0, 0>>)
-                    /\ TinyAbsPivot(A, <<0, 0>>, <<-41, -41>>)
+
+\* elimination with partial pivoting (the repaired gj_solve): it computes the
+\* determinant, never meets a zero pivot on a non-singular matrix whatever
+\* the row scaling, and with equal scalings picks a largest entry
+ReSet == IF N = 2 THEN {<<0, 0>>, <<-7, 0>>, <<3, -3>>}
+         ELSE {<<0, 0, 0>>, <<-7, 0, 5>>, <<2, -9, 0>>}
+Inv_Pivoted ==
+    General =>
+        /\ \A re \in ReSet :
+            LET pe == PivotedElim(A, re)
+                st == pe.steps
+            IN /\ pe.sgn * pe.last = Det(A)
+               /\ Det(A) # 0 =>
+                     /\ Len(st) = N - 1
+                     /\ \A k \in 1..Len(st) : st[k].piv # 0
+               /\ (re = [i \in 1..N |-> 0] /\ Len(st) >= 1) =>
+                     \A i \in 1..N : Abs(A[i][1]) <= Abs(st[1].piv)
+               \* real pivot = piv/prev * 2^(e + ce) against 2^-39
+               /\ Det(A) # 0 =>
+                     /\ ~TinyAbsPivot(A, [i \in 1..N |-> -30],
+                                      [i \in 1..N |-> 0])
+                     /\ TinyAbsPivot(A, [i \in 1..N |-> -41],
+                                     [i \in 1..N |-> 0])
+                     /\ TinyAbsPivot(A, [i \in 1..N |-> 0],
+                                     [i \in 1..N |-> -41])
+        \* one tiny row is avoided by the pivot search when another row offers
+        \* a pivot; it is met when its column has nothing else
+        /\ (N = 2 /\ A[1][1] # 0 /\ A[2][1] # 0 /\ Det(A) # 0) =>
+              ~TinyAbsPivot(A, <<-45, 0>>, <<0, 0>>)
+        /\ (N = 2 /\ A[1][1] # 0 /\ A[2][1] = 0 /\ Det(A) # 0) =>
+              TinyAbsPivot(A, <<-45, 0>>, <<0, 0>>)
 
 Poly(p, l) == l * l * l - p.c2 * l * l + p.c1 * l - p.c0
 DPoly(p, l) == 3 * l * l - 2 * p.c2 * l + p.c1
